@@ -177,6 +177,67 @@ def _cffopt():
     raise LookupError("CFFOptimization")
 
 
+# ---------------------------------------------------------------- C16
+@extractor("ps_name_chars", lambda v: [
+    "(* fontInfoData._postscriptFontNameExceptions / _postscriptFontNameAllowed *)",
+    "Definition ps_exceptions : list Z := %s." % gallina(v["exceptions"]),
+    "Definition ps_allowed_lo : Z := %d." % v["lo"],
+    "Definition ps_allowed_hi : Z := %d." % v["hi"]])
+def _ps_chars():
+    tree = parse("fontInfoData.py")
+    exc = find_assign(tree, "_postscriptFontNameExceptions")
+    if not (isinstance(exc, ast.Call) and exc.func.id == "set"):
+        raise LookupError("exceptions")
+    allowed = find_assign(tree, "_postscriptFontNameAllowed")
+    rng = None
+    for n in ast.walk(allowed):
+        if isinstance(n, ast.Call) and isinstance(n.func, ast.Name) and n.func.id == "range":
+            rng = [lit(a) for a in n.args]
+    if rng is None or len(rng) != 2:
+        raise LookupError("allowed range")
+    return {"exceptions": sorted(ord(c) for c in lit(exc.args[0])), "lo": rng[0], "hi": rng[1] - 1}
+
+
+def _fallback_factor(tree, fn_name):
+    """the decimal literal k in `otRound(upm * k)` style fallbacks, as a fraction string"""
+    from fractions import Fraction
+    fn = find_func(tree, fn_name)
+    for n in ast.walk(fn):
+        if isinstance(n, ast.BinOp) and isinstance(n.op, ast.Mult) and isinstance(n.right, ast.Constant) \
+                and isinstance(n.right.value, float):
+            f = Fraction(str(n.right.value))
+            return [f.numerator, f.denominator]
+    raise LookupError(fn_name)
+
+
+@extractor("info_fallback_factors", lambda v: [
+    "(* fontInfoData special fallbacks: decimal factors of unitsPerEm, as exact fractions *)"] + [
+    "Definition %s_num : Z := %d. Definition %s_den : positive := %d%%positive." % (k, a, k, b) for k, (a, b) in sorted(v.items())])
+def _factors():
+    tree = parse("fontInfoData.py")
+    return {"f_ascender": _fallback_factor(tree, "ascenderFallback"),
+            "f_descender": _fallback_factor(tree, "descenderFallback"),
+            "f_capheight": _fallback_factor(tree, "capHeightFallback"),
+            "f_xheight": _fallback_factor(tree, "xHeightFallback"),
+            "f_linegap": _fallback_factor(tree, "openTypeOS2TypoLineGapFallback")}
+
+
+@extractor("static_fallback_numbers", lambda v: [
+    "(* fontInfoData.staticFallbackData (numeric entries used by the model) *)"] + [
+    "Definition static_%s : Z := %d." % (k, x) for k, x in sorted(v.items())])
+def _static():
+    tree = parse("fontInfoData.py")
+    d = find_assign(tree, "staticFallbackData")
+    out = {}
+    for kw in d.keywords:
+        if kw.arg in ("unitsPerEm", "openTypeHheaLineGap", "italicAngle", "versionMajor", "versionMinor",
+                      "openTypeOS2WeightClass", "openTypeOS2WidthClass", "openTypeHeadLowestRecPPEM"):
+            out[kw.arg] = lit(kw.value)
+    if len(out) != 8:
+        raise LookupError("staticFallbackData")
+    return out
+
+
 def gallina(v):
     if isinstance(v, bool):
         return "true" if v else "false"
